@@ -1,7 +1,8 @@
 /- Driver/C20.lean — line-protocol driver for the C20 model (see Base/Proto.lean). -/
 import PsutilModel.Base.Proto
 import PsutilModel.Model.C20Gen
-import PsutilModel.Spec.C20
+import PsutilModel.Model.C20Block
+import PsutilModel.Spec.C20Block
 open Lean Psutil Psutil.Proto Psutil.C20
 
 def parsePlat (s : String) : R Platform :=
@@ -75,6 +76,37 @@ def handleFault (j : Json) : R Json := do
                    ("tolerated", jList jOutcome (toleratedOutcomes p e env)),
                    ("retries", jNat (if p == .windows && Spec.retriesPartialCopy meth
                                         && winerror == some Spec.partialCopyCode then Spec.partialCopyRetries else 0))])]
+
+/-- a faulted call preceded by a history of calls inside one `oneshot()` block (seeded round 5, C20-8) -/
+def handleBlock (j : Json) : R Json := do
+  let p ← strF j "plat" >>= parsePlat
+  let meth ← strF j "meth"
+  let call ← strF j "call"
+  let errno ← strF j "errno" >>= parseErrno
+  let winerror ← optF asNat j "winerror"
+  let state ← strF j "state" >>= parseState
+  let pid ← natF j "pid"
+  let pid0 ← boolF j "pid0"
+  let exited ← boolF j "exited"
+  let h ← listF (fun x => do
+    let r ← boolF x "reads"
+    let st ← strF x "state" >>= parseState
+    pure (Earlier.mk r st)) j "history"
+  let m ← match methodOf? p meth with
+    | some m => pure m
+    | none => .error s!"method {meth} is not in the generated method list of {p.key}"
+  let e : Err := ⟨errno, winerror⟩
+  let zcode ← optF asStr j "zcode"
+  let (envM, env) := envs p pid state pid0 zcode
+  let (o, sleeps) := blockFault cfg probeFreshOf p m call e h exited envM false
+  let r := Spec.recoverable p meth call
+  let past := h.map fun x => Spec.Past.mk x.state
+  let allowed := (candidates e pid).filter (Spec.allowedInBlock p meth r e past exited env)
+  return jObj [
+    ("model", jObj [("o", jOutcome o), ("sleeps", jNat sleeps), ("wrapped", Json.bool m.wrapped),
+                    ("probeFresh", Json.bool (probeFreshOf p.family))]),
+    ("spec", jObj [("cell", jOutcome (Spec.contract p.family e env)), ("allowed", jList jOutcome allowed),
+                   ("tolerated", jList jOutcome (toleratedOutcomes p e env)), ("retries", jNat 0)])]
 
 def jAfter : After → Json
   | .ended o s => jObj [("k", "ended"), ("o", jOutcome o), ("sleeps", jNat s)]
@@ -407,6 +439,7 @@ def handle (_ : Unit) (j : Json) : R (Unit × Json) := do
   let r ← (
     if op == "fault" then handleFault j
     else if op == "fault2" then handleFault2 j
+    else if op == "block" then handleBlock j
     else if op == "record" then handleRecord j
     else if op == "netif" then handleNetif j
     else if op == "netifs" then handleNetifs j
